@@ -2013,6 +2013,18 @@ class C15(SimpleSpec):
                 r = O.Report(o["obs"])
                 nodes = o["tables"]["nodes"]
                 failing = sorted(nodes[i].split(":")[0] for i in r.failures())
+                # is anything required of the crate at all?  (a dependent may waive it: `dependency-criteria = { x = [] }`)
+                try:
+                    mi_ = o["model_input"]
+                    gn_, _ = O.graph_nodes(mi_["graph"])
+                    R_, _ = O.requirements(O.table_of(mi_["store"]), mi_["graph"])
+                    names_ = o["tables"]["names"]
+                    demanded = any(gn_[i]["third"] and names_[gn_[i]["name"]] == c.get("junk_for") and R_[i] for i in range(len(gn_)))
+                except Exception:
+                    demanded = False
+                if not demanded:
+                    tags["nothing-required"] += 1
+                    continue
                 tags[r.kind] += 1
                 if r.kind == "success" or (r.kind == "failvet" and c.get("junk_for") not in failing):
                     what = (f"{c.get('junk_for')} has no record at all and the peer serves only ill-formed or non-importable entries for it "
